@@ -68,6 +68,21 @@ fn main() {
 			let p = |i: usize| args[i].parse::<u64>().expect("number");
 			driver::worker_main(m.as_ref(), tier, p(4), p(5) as usize, p(6) as usize, p(7) as usize);
 		}
+		"write-slpp" => {
+			// write-slpp <seed index> <none|lz4|zstd> <outfile>: used by C18 to write from another process
+			let seeds = monitors::c06::seeds();
+			let i: usize = args[2].parse().expect("index");
+			let comp = match args[3].as_str() {
+				"lz4" => common::Comp::Lz4,
+				"zstd" => common::Comp::Zstd,
+				_ => common::Comp::None,
+			};
+			let g = common::slp_read(&seeds[i].bytes, false, true).ok().expect("seed reads");
+			match common::slpp_write(g, comp) {
+				Ok(a) => std::fs::write(&args[4], a).expect("write file"),
+				Err(_) => std::process::exit(3),
+			}
+		}
 		"classify" => {
 			// classify <file>: judge one input with the C06 monitors (all modes + .slpp reader)
 			std::process::exit(monitors::c06::classify(std::path::Path::new(&args[2])));
